@@ -76,6 +76,12 @@ CHECKS.update({
     note="Trusted: TLC, Er7.tla, GroupTrace.tla. Known findings: content at withdrawn field positions is moved behind the defined fields; PV1-52 / ORO-3 table defects.",
     ref="DESIGN.md §4 C03, §3.4"),
 })
+CHECKS.update({
+ "C04": dict(technique="TLA+ verdict function (Validate.tla: the errors a structure prescribes for a forest) model-checked by TLC on a nested structure; real messages generated from every structure, mutated through the API and validated in four ways; reports judged by the TLC trace specification ValidateTrace",
+    text="For message structures of all versions (quick: 9 per version; thorough: all) generated instances are parsed and mutated (required segment removed, non-repeatable segment duplicated, group removed, foreign segment in a group / in the message, unknown field, duplicated field, Z-segment). TLC computes from the structure tables and the observed tree the exact set of missing / limit / invalid-child errors at message, group and segment level and requires the reported set to be equal (nothing missed, nothing invented), is_valid <=> no error, the raising form to raise the first reported error, report file object and path to list exactly the errors then the warnings, the encoding to be unchanged and a second validation to report the same.",
+    note="Trusted: TLC, Validate.tla, the tokenisation of error texts into (kind, parent, child). Component-level and datatype/table/length checks are outside the compared levels. Structures with the ANYHL7SEGMENT placeholder are skipped.",
+    ref="DESIGN.md §4 C04, §3.5"),
+})
 NOT_YET = {}
 def main():
     props = [json.loads(l) for l in open(os.path.join(HERE, "properties.jsonl"))]
